@@ -201,11 +201,20 @@ def _ld_seq_trace(rng, cap, nops):
   finally:
     mh.HsmWithQueues.QUEUE_SIZE = old
   ops, nid = [], 0
+  force = None
   for _ in range(nops):
-    k = rng.choices(["append", "appendleft", "popleft", "pop", "clear", "len"], [30, 25, 15, 10, 6, 8])[0]
+    k = force or rng.choices(["append", "appendleft", "popleft", "pop", "clear", "len", "wait"], [30, 25, 15, 10, 6, 8, 5])[0]
+    force = None
+    if k == "wait" and len(ld.deque) == 0:
+      k = "len"
     rec = [k, 0, 0, [], 0, "ok"]
     try:
-      if k in ("append", "appendleft"):
+      if k == "wait":
+        # the consumer woke up (took the wake-up token of the front event) and, before it takes the event, the queue is cleared:
+        # one event more than tokens - clear() must still succeed (C16: clear() always succeeds)
+        ld.wait(False)
+        force = "clear"
+      elif k in ("append", "appendleft"):
         nid += 1
         rec[1] = nid
         getattr(ld, k)(nid)
